@@ -371,6 +371,59 @@ def r3_mapping(rep, src):
     # the writer side of the polarity: decided by the template rules R1/R2 (the "!" literal is part of the extracted template)
 
 
+def r6_delimiter_searches(rep, src):
+    """where the reader cuts the text of one dependency at the first occurrence of a character (find / index / partition / split with
+    a constant) and matches a regex against the part in front of the cut, that character must not be one the regex can match: else
+    the cut falls inside the part the regex is meant to read ("pkg (<< 1.0) <profile>" cut at the first '<' ends in the middle of
+    the version constraint).  Decided on the set of characters that can occur inside a match of the regex."""
+    from .. import symstr
+    f = src.func(SITE + '.parse_relations')
+    rep.saw_func(f)
+    mod = src.mod('deb822')
+    n = 0
+    for fn in [f.node] + [x for x in ast.walk(f.node) if isinstance(x, ast.FunctionDef) and x is not f.node]:
+        if fn is f.node:
+            continue
+        params = [a.arg for a in fn.args.args]
+        if len(params) != 1:
+            continue
+        raw = params[0]
+        cuts = []
+        for c in ast.walk(fn):
+            if isinstance(c, ast.Call) and isinstance(c.func, ast.Attribute) and c.func.attr in ('find', 'index', 'partition', 'split') and c.args \
+                    and isinstance(c.args[0], ast.Constant) and isinstance(c.args[0].value, str) and len(c.args[0].value) == 1 \
+                    and any(isinstance(x, ast.Name) and x.id == raw for x in ast.walk(c.func.value)):
+                cuts.append(c)
+        matches = [c for c in ast.walk(fn) if isinstance(c, ast.Call) and isinstance(c.func, ast.Attribute) and c.func.attr in ('match', 'fullmatch', 'search')
+                   and isinstance(c.func.value, ast.Attribute) and c.func.value.attr.endswith('_RE')]
+        for cut in cuts:
+            ch = cut.args[0].value
+            for m_ in matches:
+                try:
+                    r = src.regex('deb822', m_.func.value.attr.lstrip('_'), cls='PkgRelation')
+                except AnalysisError:
+                    try:
+                        r = src.regex('deb822', m_.func.value.attr, cls='PkgRelation')
+                    except AnalysisError:
+                        continue
+                n += 1
+                a = symstr.alpha()
+                mask = symstr.regex_chars(r['pattern'], r['flags'])
+                what = '`%s` in %s against %s' % (norm(cut)[:40], fn.name, m_.func.value.attr)
+                if ch in a.idx and mask >> a.idx[ch] & 1:
+                    import re as _re
+                    al_ = rx.alphabet('str')
+                    wit = rx.regex_lang(r['pattern'], r['flags'], 'fullmatch', alpha=al_).intersect(
+                        rx.regex_lang('(?s:.*%s.*)' % _re.escape(ch), 0, 'fullmatch', alpha=al_)).witness()
+                    rep.fail('C13.R6', f.site, what, 'the dependency text is cut at the first %r, but %r can occur inside what %s matches (it matches %r): a dependency with that '
+                             'part and more text after it is cut inside the part, the front does not match and the relation is returned raw with a warning'
+                             % (ch, ch, m_.func.value.attr, wit), where='%s:%d' % (mod.relpath, cut.lineno))
+                else:
+                    rep.ok('C13.R6', f.site, what, '%r cannot occur inside a match' % ch)
+    if n == 0:
+        rep.ok('C13.R6', f.site, 'delimiter searches on the text of one dependency', 'none: the dependency is read by its regex alone', nontrivial=False)
+
+
 def check(src, rep, tier):
     rep.explanation = ('C13: the template of PkgRelation.str is extracted for the 16 combinations of optional parts (closures pp_arch, '
                        'pp_restrictions, pp_atomic_dep inlined; per-item "!" polarity as alternation).  For each combination: the template '
@@ -386,3 +439,4 @@ def check(src, rep, tier):
     if out is not None:
         rep.guard('C13.R2', r2_separators, src, *out)
     rep.guard('C13.R3', r3_mapping, src)
+    rep.guard('C13.R6', r6_delimiter_searches, src)
